@@ -98,7 +98,7 @@ def handleStep (args : List String) : Option String :=
     let dt ← pRat
     let pv ← pMany net.nP pRat
     let x ← pStock net
-    if !(wfCheck net && wfGroupRows net) then pure "err wf" else
+    if !(wfCheck net && wfGroupRows net && resCheck net) then pure "err wf" else
     let pvf := fun p => pv.getD p 0
     -- evaluate stage by stage, freezing intermediate functions (pure memoisation, same values)
     let cacheA := (Array.range net.nL).map (fun l => convert net dt pvf x l)
@@ -121,7 +121,7 @@ def handleFlush (args : List String) : Option String :=
     let net ← pNet
     let pv ← pMany net.nP pRat
     let x ← pStock net
-    if !(wfCheck net && wfGroupRows net) then pure "err wf" else
+    if !(wfCheck net && wfGroupRows net && resCheck net) then pure "err wf" else
     let pvf := fun p => pv.getD p 0
     let rec go (a : Array (Array Rat)) : List Nat → Option (Array (Array Rat))
       | [] => some a
@@ -140,7 +140,7 @@ def handleStepRef (args : List String) : Option String :=
     let dt ← pRat
     let pv ← pMany net.nP pRat
     let x ← pStock net
-    if !(wfCheck net && wfGroupRows net) then pure "err wf" else
+    if !(wfCheck net && wfGroupRows net && resCheck net) then pure "err wf" else
     match step net dt (fun p => pv.getD p 0) x with
     | none => pure "nan"
     | some (fl, x') => pure ("ok " ++ showFlow net fl ++ " | " ++ showStock net x')) args
@@ -150,12 +150,12 @@ def handleFlushRef (args : List String) : Option String :=
     let net ← pNet
     let pv ← pMany net.nP pRat
     let x ← pStock net
-    if !(wfCheck net && wfGroupRows net) then pure "err wf" else
+    if !(wfCheck net && wfGroupRows net && resCheck net) then pure "err wf" else
     match flushAll net (fun p => pv.getD p 0) x net.jorder with
     | none => pure "nan"
     | some x' => pure ("ok " ++ showStock net x')) args
 
 def handleWf (args : List String) : Option String :=
-  runP (do let net ← pNet; pure (toString (wfCheck net && wfGroupRows net))) args
+  runP (do let net ← pNet; pure (toString (wfCheck net && wfGroupRows net && resCheck net))) args
 
 end Atomica.Engine
